@@ -148,23 +148,41 @@ def rule_part(run):
              'original volume; continua chained; area = V*a; embed() subtracts the sub-grid volume', floor=8)
     prog = run.prog
     fi = prog.func('t2grids.t2grid.minc')
-    # normalisation dominates every use of the fractions in geometry / volumes
-    norm_stmt = [n for n in walk_no_nested(fi.node) if isinstance(n, ast.AugAssign) and norm(n.target) == 'volume_fractions'
-                 and isinstance(n.op, ast.Div)]
+    # normalisation dominates every use of the fractions in geometry / volumes.  The variables are found by role:
+    # raw = the fractions parameter; NF = the variable holding raw / sum(raw) (raw itself when normalised in place)
+    raw = fi.params[1]
+
+    def is_sum_of(e, name):
+        return isinstance(e, ast.Call) and call_name(e) == 'sum' and len(e.args) == 1 and isinstance(e.args[0], ast.Name) and e.args[0].id == name
     key = 't2grid.minc :: fractions normalised'
-    if len(norm_stmt) != 1:
-        run.unknown(key, 'normalisation statement not found', where=fi.where())
+    NF, norm_stmt = None, None
+    cands = []
+    for n in walk_no_nested(fi.node):
+        if isinstance(n, ast.AugAssign) and isinstance(n.target, ast.Name) and n.target.id == raw and isinstance(n.op, ast.Div):
+            cands.append((raw, n, n.value))
+        if isinstance(n, ast.Assign) and len(n.targets) == 1 and isinstance(n.targets[0], ast.Name) and isinstance(n.value, ast.BinOp) \
+           and isinstance(n.value.op, ast.Div) and isinstance(n.value.left, ast.Name) and n.value.left.id == raw:
+            cands.append((n.targets[0].id, n, n.value.right))
+    if len(cands) != 1:
+        run.unknown(key, 'statement dividing the fractions `%s` by their sum not found exactly once' % raw, where=fi.where())
     else:
-        r = compare(norm_stmt[0].value, 'np.sum(volume_fractions)')
-        if r == 'equal': run.ok(key, where=fi.where(norm_stmt[0]))
-        elif r == 'different': run.violated(key, 'fractions divided by `%s`, not their sum: continua volumes do not add up to the block volume' % norm(norm_stmt[0].value), where=fi.where(norm_stmt[0]))
-        else: run.unknown(key, 'divisor `%s`' % norm(norm_stmt[0].value), where=fi.where(norm_stmt[0]))
-        # every later read of volume_fractions[...] comes after it (document order inside the else-branch)
-        uses = [n for n in walk_no_nested(fi.node) if isinstance(n, ast.Subscript) and norm(n.value) == 'volume_fractions']
-        early = [u for u in uses if u.lineno < norm_stmt[0].lineno]
-        run.check(not early, 't2grid.minc :: no fraction used before normalisation',
-                  'volume_fractions[%s] is read at line %d before the normalisation' % (norm(early[0].slice) if early else '', early[0].lineno if early else 0),
-                  where=fi.where(early[0]) if early else fi.where())
+        NF, norm_stmt, div = cands[0]
+        if is_sum_of(div, raw): run.ok(key, '%s holds %s / sum(%s)' % (NF, raw, raw), where=fi.where(norm_stmt))
+        elif isinstance(div, (ast.Constant, ast.Name)) or (isinstance(div, ast.Call) and raw in norm(div)):
+            run.violated(key, 'fractions divided by `%s`, not their sum: continua volumes do not add up to the block volume' % norm(div), where=fi.where(norm_stmt))
+        else: run.unknown(key, 'divisor `%s`' % norm(div), where=fi.where(norm_stmt))
+        # every element of the fractions that is read is read from the normalised variable, after the normalisation
+        uses = [n for n in walk_no_nested(fi.node) if isinstance(n, ast.Subscript) and isinstance(n.value, ast.Name) and n.value.id in (raw, NF)
+                and isinstance(n.ctx, ast.Load)]
+        early = [u for u in uses if u.lineno < norm_stmt.lineno]
+        unscaled = [u for u in uses if u.value.id != NF and u.lineno > norm_stmt.lineno]
+        k2 = 't2grid.minc :: no fraction used before normalisation'
+        if early: run.violated(k2, '%s is read at line %d before the normalisation' % (norm(early[0]), early[0].lineno), where=fi.where(early[0]))
+        elif unscaled:
+            run.violated(k2, '`%s` reads the fractions as given (`%s`), not the normalised `%s`: when the requested fractions do not sum to 1 '
+                         'the continua volumes do not add up to the original block volume' % (norm(unscaled[0]), raw, NF), where=fi.where(unscaled[0]))
+        else: run.ok(k2, {'reads': len(uses), 'normalised variable': NF}, where=fi.where(norm_stmt))
+    FR = NF or raw
     # the per-block loop
     loops = [n for n in walk_no_nested(fi.node) if isinstance(n, ast.For) and norm(n.iter) == 'enumerate(blocks)']
     if len(loops) != 1:
@@ -195,7 +213,7 @@ def rule_part(run):
                          % gm[0], where=fi.where(scal[0]))
         elif gm: run.ok('t2grid.minc :: fracture scaling under the same guard as the matrix blocks', where=fi.where(scal[0]))
     if sc_plain and not sc:
-        r = compare(sc_plain[0].value, 'original_vol * volume_fractions[0]')
+        r = compare(sc_plain[0].value, 'original_vol * %s[0]' % FR)
         k2 = 't2grid.minc :: fracture block volume = V * f[0]'
         if r == 'equal': run.ok(k2, where=fi.where(sc_plain[0]))
         elif r == 'different': run.violated(k2, 'fracture volume set to `%s`' % norm(sc_plain[0].value), where=fi.where(sc_plain[0]))
@@ -207,7 +225,7 @@ def rule_part(run):
     elif len(ov) == 1 and len(sc) == 1:
         good = compare(ov[0].value, 'blk.volume') == 'equal' and ov[0].lineno < sc[0].lineno
         run.check(good, key, 'original_vol = %s at line %d, fracture scaling at line %d' % (norm(ov[0].value), ov[0].lineno, sc[0].lineno), where=fi.where(ov[0]))
-        r = compare(sc[0].value, 'volume_fractions[0]')
+        r = compare(sc[0].value, '%s[0]' % FR)
         k2 = 't2grid.minc :: fracture block volume = V * f[0]'
         if isinstance(sc[0].op, ast.Mult) and r == 'equal': run.ok(k2, where=fi.where(sc[0]))
         elif r == 'incomparable' and isinstance(sc[0].op, ast.Mult): run.unknown(k2, norm(sc[0]), where=fi.where(sc[0]))
@@ -215,12 +233,12 @@ def rule_part(run):
     else:
         run.unknown(key, 'statements not found', where=fi.where(lp))
     inner = [n for n in ast.walk(lp) if isinstance(n, ast.For) and isinstance(n.target, ast.Name)
-             and norm(n.iter).startswith('volume_fractions[')]
+             and isinstance(n.iter, ast.Subscript) and isinstance(n.iter.value, ast.Name) and n.iter.value.id in (raw, FR)]
     if len(inner) != 1:
         run.unknown('t2grid.minc :: matrix loop', 'loop over the matrix fractions not found', where=fi.where(lp)); return
     il = inner[0]
     vf = il.target.id
-    run.check(norm(il.iter) == 'volume_fractions[1:]', 't2grid.minc :: matrix continua use fractions [1:]',
+    run.check(norm(il.iter.slice) == '1:', 't2grid.minc :: matrix continua use fractions [1:]',
               'matrix loop iterates %s: a fraction is skipped or the fracture fraction is reused' % norm(il.iter), where=fi.where(il))
     mk = [c for c in ast.walk(il) if isinstance(c, ast.Call) and isinstance(c.func, ast.Name) and c.func.id == 't2block']
     if len(mk) == 1 and len(mk[0].args) >= 2:
